@@ -780,22 +780,27 @@ func runSysCrashCase(r *Run, rng *Rng, cycles int) {
 	inRecovery := false
 	for cyc := 0; cyc < cycles; cyc++ {
 		r.Eval(1)
-		mode := pickOne(rng, []string{"timer", "timer", "inject", "inject", "inject"})
+		mode := pickOne(rng, []string{"timer", "timer", "inject", "inject", "attach", "attach", "attach"})
 		if cyc == 0 {
 			// creation of the log is neither sequencing nor recovery: it runs undisturbed
 			mode = "timer"
 		}
-		inject := ""
+		inject, attach := "", ""
 		if mode != "timer" {
 			sys := pickOne(rng, sysInjectSyscalls)
 			n := 1 + rng.Intn(pickOne(rng, []int{2, 4, 8, 20}))
 			inject = fmt.Sprintf("%s:signal=KILL:when=%d", sys, n)
+			if mode == "attach" {
+				// the tracer is attached to the RUNNING server under load: the
+				// N-th occurrence counts from that moment (a kill while sequencing)
+				attach, inject = inject, ""
+			}
 			r.DistinctKey(fmt.Sprintf("%s/%s/n<%d/recovery=%v", mode, sys, 1<<uint(bitsFor(n)), inRecovery))
 		} else {
 			r.DistinctKey(fmt.Sprintf("timer/recovery=%v", inRecovery))
 		}
 		p := f.start("P", "main", f.PeriodMs, inject)
-		note("cycle %d: start mode=%s inject=%q", cyc, mode, inject)
+		note("cycle %d: start mode=%s inject=%q attach=%q", cyc, mode, inject, attach)
 		ready := p.waitReady(60 * time.Second)
 		if !ready {
 			if p.alive() {
@@ -814,18 +819,38 @@ func runSysCrashCase(r *Run, rng *Rng, cycles int) {
 			continue
 		}
 		stop := make(chan struct{})
-		wg := f.load(p, rng.Fork(fmt.Sprint("load", cyc)), 6, stop)
+		nsub := 6
+		if cyc == 0 {
+			nsub = 14 // the first life fills the log: tiles larger than one 16 KiB chunk exist afterwards
+		}
+		wg := f.load(p, rng.Fork(fmt.Sprint("load", cyc)), nsub, stop)
 		if mode == "timer" {
+			if cyc == 0 {
+				time.Sleep(1500 * time.Millisecond)
+			}
 			time.Sleep(time.Duration(20+rng.Intn(400)) * time.Millisecond)
 			p.kill()
 			r.Count("sys_kills_timer", 1)
 		} else {
+			var tracer *exec.Cmd
+			if attach != "" {
+				time.Sleep(time.Duration(50+rng.Intn(300)) * time.Millisecond)
+				sys := strings.SplitN(attach, ":", 2)[0]
+				tracer = exec.Command("strace", "-f", "-qq", "-o", "/dev/null", "-p", fmt.Sprint(p.cmd.Process.Pid), "-e", "trace="+sys, "-e", "inject="+attach)
+				if err := tracer.Start(); err != nil {
+					tracer = nil
+				}
+			}
 			select {
 			case <-p.done:
-				r.Count("sys_kills_injected", 1)
+				r.Count("sys_kills_injected:"+mode, 1)
 			case <-time.After(time.Duration(1500+rng.Intn(1500)) * time.Millisecond):
 				p.kill()
 				r.Count("sys_kills_timer_fallback", 1)
+			}
+			if tracer != nil {
+				tracer.Process.Kill()
+				tracer.Wait()
 			}
 		}
 		close(stop)
